@@ -291,6 +291,13 @@ def pool_value(rng, name):
     if name == 'S13':
         mk = lambda: dict(a=rng.randrange(256), b=rng.choice([1, 300, 9]), c=s0())
         return dict(p=mk(), q=mk(), t=rng.randrange(256)), kw
+    if name == 'S14':
+        # values that several alternatives can build: which one builds them must not depend on what was built before
+        return rng.choice([5, 300, 70000, 0, 255, 256, 65535, 65536]), kw
+    if name == 'S15':
+        return dict(o=rng.choice([None, 7, 513]), s=rng.choice([5, 300, 70000]), r=rng.choice([None, s0()])), kw
+    if name == 'S16':
+        return dict(k=rng.choice([0, 1, 2, 3, 90, 255]), d=G.rand_bytes(rng, 3), e=G.rand_bytes(rng, 2)), kw
     raise KeyError(name)
 
 
